@@ -130,7 +130,10 @@ impl<S: Storage> Builder<S> {
         let mut views = HashMap::new();
         for node in plan.as_ref() {
             if let Expr::Table(tid) = node
-                && let Some(query) = optimizer.catalog().get_table(tid).unwrap().query()
+                // the table may have been dropped since the statement was bound: the executor
+                // that needs it then fails with "table not found"
+                && let Some(table) = optimizer.catalog().get_table(tid)
+                && let Some(query) = table.query()
             {
                 let builder = Self::new(optimizer.clone(), storage.clone(), query);
                 let subscriber = builder.build_subscriber();
